@@ -759,6 +759,11 @@ impl Session {
             Err(_) => return,
         };
 
+        // Already connected with this address (e.g. peer was dialed by us in the meantime)
+        if self.peers.contains_key(&addr) {
+            return;
+        }
+
         let mut peer_handler = PeerHandler::new(
             addr.clone(),
             self.own_id,
